@@ -20,6 +20,16 @@ use chialisp::compiler::srcloc::Srcloc;
 use clvmr::allocator::Allocator;
 use num_bigint::BigInt;
 
+/// The repository checkout the harness was built against (`/repo` unless the driver was given VERIF_REPO).
+pub fn repo_root() -> String {
+    std::env::var("VERIF_REPO").ok().filter(|s| !s.is_empty()).unwrap_or_else(|| "/repo".to_string())
+}
+
+pub fn repo_search_paths() -> Vec<String> {
+    let r = repo_root();
+    ["resources/tests", "resources/tests/bridge-includes", "resources/tests/strict/includes", "resources/tests/lib"].iter().map(|d| format!("{}/{}", r, d)).collect()
+}
+
 pub fn loc() -> Srcloc {
     Srcloc::start("*verif*")
 }
